@@ -3,7 +3,7 @@
     ones included); what -g, -p, -t and -s do to the fields; how the general path stages a
     record; the whole record under plain options.  See DESIGN.md §3 C01. *)
 From TucModel Require Import Base.Bytes Base.ListX Model.Bounds Model.BoundsParse Model.Scan Model.Opt
-     Model.CutBytes Model.CutStr Spec.Fields Proofs.C06 Proofs.ScanSplit Proofs.Plain Proofs.C01More.
+     Model.CutBytes Model.CutStr Spec.Fields Proofs.C06 Proofs.ScanSplit Proofs.Plain Proofs.C01More Proofs.PlainMulti.
 
 (** the byte ranges pushed by fill_with_fields_locations cut a non-empty record into
     pieces ps with  p1 ++ d ++ p2 ++ ... ++ pk = record  where every delimiter occurrence used
@@ -113,6 +113,42 @@ Theorem C01_staged_fields_are_the_fields :
     pieces (fst (lit_stage o line1)) (snd (lit_stage o line1)) = spec_fields o line1.
 Proof. exact stage_fields. Qed.
 
+(** the whole record as a function of the record, for every non-empty literal delimiter
+    (multi-byte and self-overlapping ones included) and every combination of -t, -p, -s, -m,
+    -j, -r, format text and fallbacks (everything but -g): after trimming, an empty record
+    gives an empty record (nothing under -s); otherwise the fields are those of the
+    statement (squeezed under -p), a record with a single field is dropped under -s, and
+    each bound (of the request, or of its complement under -m) prints, in the order written,
+    its fields joined by the (replacement) delimiter, the (replacement) delimiter after
+    every bound but the last only under -j/-r, fallbacks in place, then the EOL *)
+Theorem C01_record_as_a_function_of_its_fields :
+  forall (o : opt) (line0 : bytes),
+    value_opts o -> Forall item_nz (items (o_bounds o)) ->
+    cut_str o line0
+    = Some (let line1 := match o_trim o with Some k => trim_lit k (o_delim o) line0 | None => line0 end in
+            match line1 with
+            | [] => ROk (if o_only_delimited o then [] else [o_eol o])
+            | _ =>
+                let fs := if o_compress o then squeeze (split (o_delim o) line1) else split (o_delim o) line1 in
+                if o_only_delimited o && Nat.eqb (length fs) 1 then ROk []
+                else match effective_bounds o (length fs) with
+                     | None => RErr
+                     | Some bs =>
+                         match spec_items fs (o_fallback o) (o_join o) (rep_of' o) bs with
+                         | Some x => ROk (x ++ [o_eol o])
+                         | None => RErr
+                         end
+                     end
+            end).
+Proof. exact general_record_value. Qed.
+
+(** the slice from the start of a bound's first field to the end of its last is those
+    fields joined by the delimiter, for any delimiter; -r rewrites exactly the separators *)
+Theorem C01_replacement_rewrites_exactly_the_separators_any_delimiter :
+  forall (d rep : bytes) (fs : list bytes), d <> [] -> fs <> [] -> leftmost_fields d fs ->
+    replace_matches (intercalate d fs) (lit_matches d (intercalate d fs)) rep = intercalate rep fs.
+Proof. exact replace_joined_gen. Qed.
+
 (** non-vacuity: '--' in '---' (self-overlapping): fields "" and "-" *)
 Example C01_self_overlapping :
   pieces [45;45;45]%N (fields_of_matches (lit_matches [45;45]%N [45;45;45]%N) [45;45;45]%N)
@@ -142,3 +178,13 @@ Example C01_squeeze_example :
         (fields_of_matches (merge_adjacent (lit_matches [45]%N [97;45;45;98;45]%N)) [97;45;45;98;45]%N)
      = [[97]; [98]; []]%N.
 Proof. repeat split; reflexivity. Qed.
+Print Assumptions C01_record_as_a_function_of_its_fields.
+Print Assumptions C01_replacement_rewrites_exactly_the_separators_any_delimiter.
+
+(** non-vacuity: '--' as delimiter, -p -s -j, bounds 2,1 on  a----b--  : fields a, b, "" *)
+Example C01_value_example :
+  squeeze (split [45;45]%N [97;45;45;45;45;98;45;45]%N) = [[97]; [98]; []]%N
+  /\ spec_items [[97]; [98]; []]%N None true [45;45]%N
+        [Bound (mkB (SSome 2) (SSome 2) false None); Bound (mkB (SSome 1) (SSome 1) true None)]
+     = Some [98;45;45;97]%N.
+Proof. split; reflexivity. Qed.
